@@ -35,9 +35,6 @@ func (g *iNodeGenerator) allocINode() fuseops.InodeID {
 	} else {
 		n = g.freeInodes[len(g.freeInodes)-1]
 		g.freeInodes = g.freeInodes[:len(g.freeInodes)-1]
-		if len(g.freeInodes) == 0 {
-			g.highestInode = firstINode
-		}
 	}
 	g.lock.Unlock()
 	return n
